@@ -200,6 +200,77 @@ def sensitivity(tier, seed, only=None):
     return 0 if killed == len(counted) else 1
 
 
+# ---------------------------------------------------------------- benign variants (false-alarm resistance)
+
+def benign(tier, seed, only=None):
+    """Every patch under /verif/benign is a change that alters the implementation
+    (orders, names of temporaries, formatting, work-list discipline) but preserves
+    every claimed property.  Each is applied to a scratch copy of /repo; the suite
+    must still pass there and EVERY claimed check, pointed at the copy, must stay
+    silent (exit 0).  An exit 1 here is a false alarm of the machinery."""
+    from sim import driver
+    os.makedirs(SCRATCH, exist_ok=True)
+    results = []
+    t00 = time.time()
+    alarms = 0
+    props = sorted(driver.PROPS)
+    for p in sorted(glob.glob(os.path.join(VERIF_DIR, "benign", "*.patch"))):
+        bid = os.path.basename(p)[:-6]
+        if only and only not in bid:
+            continue
+        work = os.path.join(SCRATCH, "benign-%d-%s" % (os.getpid(), bid))
+        shutil.rmtree(work, ignore_errors=True)
+        rec = {"id": bid, "checks": {}}
+        try:
+            shutil.copytree("/repo", work, ignore=shutil.ignore_patterns(".git", "__pycache__", "*.egg-info", "docs"))
+            ap = subprocess.run(["patch", "-p1", "-s", "-d", work, "-i", p], capture_output=True, text=True)
+            if ap.returncode != 0:
+                rec["status"] = "patch-does-not-apply"
+                results.append(rec)
+                print("benign %-40s patch-does-not-apply" % bid)
+                alarms += 1
+                continue
+            t = subprocess.run(["/venv/bin/python", "-m", "pytest", "-q", "-x", "-p", "no:cacheprovider",
+                                "--timeout=120", "numba_scfg"], cwd=work, capture_output=True, text=True, timeout=600,
+                               env=dict(os.environ, PYTHONPATH=work, PYTHONDONTWRITEBYTECODE="1"))
+            rec["suite_passes"] = t.returncode == 0
+            env = dict(os.environ, VERIF_REPO=work, VERIF_EVIDENCE_DIR=os.path.join(work, "_evidence"),
+                       VERIF_REPLAY_DIR=os.path.join(work, "_replays"), VERIF_SEED=str(seed),
+                       VERIF_MINIMISE_S="15", VERIF_MAX_GROUPS="2")
+            t0 = time.time()
+            for prop_ in props:
+                try:
+                    c = subprocess.run([os.path.join(VERIF_DIR, "check"), prop_, "--tier", tier],
+                                       capture_output=True, text=True, env=env, cwd=VERIF_DIR, timeout=2400)
+                    rec["checks"][prop_] = c.returncode
+                    if c.returncode != 0:
+                        rec.setdefault("output", {})[prop_] = [ln for ln in c.stdout.splitlines()
+                                                               if ln.startswith(("VIOLATION", "  signature", "HARNESS"))][:6]
+                        # keep the replay files of a false alarm for analysis
+                        keep = os.path.join(OUT_DIR, "benign-alarms", bid)
+                        os.makedirs(keep, exist_ok=True)
+                        for f in glob.glob(os.path.join(work, "_replays", "%s-*.json" % prop_)):
+                            shutil.copy(f, keep)
+                except subprocess.TimeoutExpired:
+                    rec["checks"][prop_] = "timeout"
+            rec["seconds"] = round(time.time() - t0, 1)
+            bad = [k for k, v in rec["checks"].items() if v != 0]
+            rec["status"] = "silent" if not bad and rec["suite_passes"] else "ALARM:" + ",".join(bad)
+            if bad or not rec["suite_passes"]:
+                alarms += 1
+        finally:
+            shutil.rmtree(work, ignore_errors=True)
+        results.append(rec)
+        print("benign %-40s %-18s suite_passes=%s %ss %s" % (bid, rec["status"], rec.get("suite_passes"),
+                                                             rec.get("seconds"), json.dumps(rec.get("output", ""))[:300]))
+    os.makedirs(OUT_DIR, exist_ok=True)
+    if not only:
+        with open(os.path.join(OUT_DIR, "benign.json"), "w") as fh:
+            json.dump({"seed": seed, "tier": tier, "wall_s": round(time.time() - t00, 1), "results": results}, fh, indent=1)
+    print("benign: %d of %d variants left every check silent" % (len(results) - alarms, len(results)))
+    return 0 if not alarms else 1
+
+
 def known_findings_examples(tier, seed):
     """Replay the example of every known finding: each must still violate its
     property with a signature the entry matches (otherwise the entry is stale)."""
@@ -250,6 +321,9 @@ def main(what, tier, seed):
         return known_findings_examples(tier, seed)
     if what == "selftest-determinism":
         return determinism(tier, seed)
+    if what.startswith("selftest-benign"):
+        only = what.split(":", 1)[1] if ":" in what else None
+        return benign(tier, seed, only)
     if what.startswith("selftest-sensitivity"):
         only = what.split(":", 1)[1] if ":" in what else None
         return sensitivity(tier, seed, only)
